@@ -168,7 +168,18 @@ func c13Run(c *h.Ctx) {
 			s.Drain(script.OnEvent)
 			before := s.TableJSON()
 			lastLA := s.TE.GetTable().State.LastPlayerGameAction
-			err := s.Do(pid, act, chips)
+			err, returned := s.DoBounded(pid, act, chips, 20*time.Second)
+			if !returned {
+				// nothing in a running hand holds the engine lock for long: a call that cannot get in for 20 s while the
+				// lock is found held at every probe of a further 2 s means a failed step left it locked
+				if attempt > 0 && s.LockHeldFor(20, 100*time.Millisecond) {
+					c.Violate("C13/engine-lock-left-held-after-backend-failure/"+act, fmt.Sprintf("the backend failed while applying %s by %s (the caller got the error); the same action submitted again has not returned for 20 s and the engine lock is held although no call is in progress", act, pid), w())
+				} else {
+					c.InconclusiveW(fmt.Sprintf("%s %s (attempt %d) did not return within 20 s", pid, act, attempt+1), w())
+				}
+				script.Stop = func() bool { return true }
+				return false
+			}
 			if err == nil {
 				return false
 			}
